@@ -144,6 +144,9 @@ def body(chk):
                     "rpcs": [str(x) for x in res["case"]["rpcs"]], "differences": res["bad"][:3]})
     chk.assumptions += ["trees are compared after loading every variable (pixels included) and normalising NaN / -0.0",
                         "very large rpc = 10^6, 10^12, sys.maxsize; the default (option absent) is 1024"]
+    from harness import sessioncheck
+
+    sessioncheck.standard(chk)
     chk.finish(
         rule="pairs = all unordered pairs of rpc values per product x filesystem (compared through a common reference "
              "tree); distinct = (level, geometry, rpc1, rpc2); non-trivial = all (each compares two complete trees)",
